@@ -4,8 +4,9 @@ cd /verif || exit 9
 OUT=$(mktemp -d /tmp/precommit.XXXX); bad=0
 for sd in ${SEEDS:-0 1}; do
   for p in C01 C04 C07 C09 C17; do
-    line=$(VERIF_OUT=$OUT VERIF_SEED=$sd timeout 1500 ./check $p 2>&1 | tail -1 | cut -c1-160); rc=${PIPESTATUS[0]}
-    echo "seed=$sd $p rc=$rc $line"
+    VERIF_OUT=$OUT VERIF_SEED=$sd timeout 1500 ./check $p > $OUT/log.$p.$sd 2>&1; rc=$?
+    echo "seed=$sd $p rc=$rc $(tail -1 $OUT/log.$p.$sd | cut -c1-160)"
+    grep -E "^VIOLATION|^HARNESS|signature=" $OUT/log.$p.$sd | cut -c1-300
     [ "$rc" != "0" ] && bad=1
     python3-vt - "$OUT/evidence/$p.json" <<'E' || bad=1
 import json, jsonschema, sys
